@@ -404,7 +404,7 @@ func transcripts() []transcript {
 // ---------------------------------------------------------------- faults
 
 type fault struct {
-	kind string // none cut readerr writeerr cancel block
+	kind string // none cut readerr writeerr writelate cancel block
 	n    int
 }
 
@@ -502,6 +502,16 @@ func runWith(tr transcript, f fault, plainRW bool) result {
 		}
 		return nil
 	}
+	if f.kind == "writelate" {
+		// the bytes of write f.n reach the peer (which answers as usual) but the
+		// Write call reports a failure all the same
+		peer.Conn.AfterWrite = func(n int, p []byte) error {
+			if n == f.n {
+				return wire.ErrInjected
+			}
+			return nil
+		}
+	}
 	var rw io.ReadWriter = peer.Conn
 	if plainRW {
 		rw = wire.RW{C: peer.Conn}
@@ -559,7 +569,7 @@ func judge(tr transcript, f fault, base, r result) string {
 		if f.n >= base.reads {
 			return ""
 		}
-	case "writeerr":
+	case "writeerr", "writelate":
 		if f.n >= base.writes {
 			return ""
 		}
@@ -630,6 +640,10 @@ func TestC04Sweep(t *testing.T) {
 			ev.Case(n > 0, fmt.Sprintf("%s writeerr@%d", tr.name, n), "writeerr")
 			checkFault(t, tr, fault{"writeerr", n}, true, base)
 		}
+		for n := 0; n < base.writes; n++ {
+			ev.Case(true, fmt.Sprintf("%s writelate@%d", tr.name, n), "write-delivered-but-reported-failed")
+			checkFault(t, tr, fault{"writelate", n}, n%2 == 0, base)
+		}
 		for n := 0; n < base.ops; n++ {
 			ev.Case(n > 1, fmt.Sprintf("%s cancel@%d", tr.name, n), "cancel-before-op")
 			checkFault(t, tr, fault{"cancel", n}, false, base)
@@ -668,12 +682,12 @@ func TestC04Random(t *testing.T) {
 	ev.Check(t, 6000, 30000, func(rt *rapid.T) {
 		i := rapid.IntRange(0, len(trs)-1).Draw(rt, "transcript")
 		tr, base := trs[i], bases[i]
-		kind := rapid.SampledFrom([]string{"cut", "cut", "readerr", "writeerr", "cancel", "cancel"}).Draw(rt, "kind")
+		kind := rapid.SampledFrom([]string{"cut", "cut", "readerr", "writeerr", "writelate", "cancel", "cancel"}).Draw(rt, "kind")
 		max := base.fed
 		switch kind {
 		case "readerr":
 			max = base.reads
-		case "writeerr":
+		case "writeerr", "writelate":
 			max = base.writes
 		case "cancel":
 			max = base.ops
